@@ -33,7 +33,7 @@ def check(pid, tier, args):
     run.cov["version_events"] = len(lines) - nh
     run.cov["exhaustive"] = False
     run.cov["bounds"] = {"walking_bits": "1024 positions x 3 base headers", "version_pairs": 65536,
-                         "random_headers": 300 if tier == "quick" else 20000}
+                         "random_headers": 3000 if tier == "quick" else 20000}
     run.sample(json.loads(lines[5]))
     run.sample(json.loads(lines[-3]))
     seen = set()
